@@ -97,4 +97,11 @@ CHECKS = {
              'produces linear extensions modulo loops, so the contract is satisfiable and not vacuous; each of those flowsheets is built from real units and Network.from_units is run for every permutation of the '
              'unit list, as are random connected flowsheets of 5-10 units with 0-3 back-edges; TLC checks completeness, single occurrence (acyclic case), order, and recycle reporting on every recorded path.',
         note='Trusted: TLC; the flattening of Network.path and get_all_recycles(); "common recycle loop" = same strongly connected component.'),
+    'C07': dict(
+        engine='FreeEnergy', category='model_checking',
+        technique='TLA+ spec defining H and S as sums of signed segments along the physical path from the reference state (FreeEnergy.tla) model-checked by TLC over a parameter grid (reference-state, derivative, jump, reference-shift identities); real Chemical / mixture objects built per grid point and validated by TLC',
+        text='TLC checks the listed identities on the path definition for every grid point (3 reference phases x heat-capacity coefficients x 4 placements of Tm, Tb around T_ref x S0); for each grid point a real '
+             'Chemical is built through Chemical.blank + add_method + reset_free_energies so that the library\'s own _init_energies, its nine enthalpy/entropy functors and IdealMixture run, and H, S (at three pressures), '
+             'Cn in all three phases at transition and off-transition temperatures plus mixture H, Cn, S of two such chemicals must equal the integer values of the path definition (one unit of 1/400 J/mol, 1/20 J/mol/K).',
+        note='Trusted: TLC; synthetic chemicals with Cn = 2cT (polynomial family only; database chemicals and "arbitrary Cn symbolically" are not covered); gas pressure term and ideal mixing term removed by the driver using the library\'s R.'),
 }
